@@ -108,12 +108,21 @@ def normalise_model(rows):
     return '_'.join(''.join('1' if v else '0' for v in r) for r in uniq)
 
 
-def check_lookup(which, rows):
-    """rows: list of lists of bools (fully defined table)."""
+def check_lookup(which, rows, row_type='list'):
+    """rows: list of lists of bools (fully defined table); row_type: how the rows are handed over (the declared
+    argument type is a sequence of sequences: lists, tuples, or a mixture)."""
     d = db(which)
     key = normalise_model(rows)
     stored = d.get_by_label(key) is not None
-    res = d.get_by_raw_truth_table([list(r) for r in rows])
+    if row_type == 'tuple':
+        arg = [tuple(r) for r in rows]
+    elif row_type == 'mixed':
+        arg = [tuple(r) if i % 2 == 0 else list(r) for i, r in enumerate(rows)]
+    elif row_type == 'tuple_of_tuples':
+        arg = tuple(tuple(r) for r in rows)
+    else:
+        arg = [list(r) for r in rows]
+    res = d.get_by_raw_truth_table(arg)
     desc = f'{which} lookup {["".join("1" if v else "0" for v in r) for r in rows]}'
     if res is None:
         if stored:
@@ -208,14 +217,15 @@ def lookup_cases(draw, tier):
             cols.append(base ^ full if draw(st.booleans()) else base)
         else:
             cols.append(draw(st.integers(0, full)))
-    return {'db': which, 'n': n, 'cols': cols, 'kind': kind}
+    return {'db': which, 'n': n, 'cols': cols, 'kind': kind,
+            'row_type': draw(st.sampled_from(['list', 'list', 'tuple', 'mixed', 'tuple_of_tuples']))}
 
 
 def check_lookup_case(case):
     n, cols = case['n'], case['cols']
-    found = check_lookup(case['db'], _rows_from_ints(n, cols))
+    found = check_lookup(case['db'], _rows_from_ints(n, cols), case.get('row_type', 'list'))
     full = (1 << (1 << n)) - 1
-    cls = {'kind:' + case['kind'], 'found' if found else 'not_found', case['db']}
+    cls = {'kind:' + case['kind'], 'found' if found else 'not_found', case['db'], 'rows_as:' + case.get('row_type', 'list')}
     if any(c & 1 for c in cols):
         cls.add('needs_negation')
     if len(set(cols)) < len(cols):
